@@ -410,8 +410,34 @@ func c10R3DeleteGC(c *Ctx, R3 string, r *c08Roles) {
 		key     string
 	}
 	var sites []site
+	// helpers that change the tag map and save it themselves before returning nil
+	clean := map[*ssa.Function]bool{}
 	for _, f := range c.P.FuncsOfPkg(c08Pkg) {
-		if f.Signature.Recv() == nil || len(c08Mutations(f, r)) == 0 {
+		if len(c08Mutations(f, r)) > 0 && !r.dirty[f] && !r.savers[f] {
+			clean[f] = true
+		}
+	}
+	// a change of the tag map inside f: a direct mutation, or the call of such a helper
+	// (then index.json is current again on the nil edge of the helper's error)
+	mutationsOf := func(f *ssa.Function) (ms []ssa.Instruction, okEdges map[ssa.Instruction][]Edge) {
+		ms = c08Mutations(f, r)
+		okEdges = map[ssa.Instruction][]Edge{}
+		for _, call := range Calls(f, func(string) bool { return true }) {
+			g := StaticCallee(call)
+			if _, isCall := call.(*ssa.Call); !isCall || g == nil || !clean[g] {
+				continue
+			}
+			in := call.(ssa.Instruction)
+			ms = append(ms, in)
+			if e := ErrOf(call); e != nil {
+				ne, _, _ := NilTests(f, Aliases(e))
+				okEdges[in] = ne
+			}
+		}
+		return
+	}
+	for _, f := range c.P.FuncsOfPkg(c08Pkg) {
+		if ms, _ := mutationsOf(f); f.Signature.Recv() == nil || len(ms) == 0 {
 			continue
 		}
 		var rm []ssa.Instruction
@@ -434,17 +460,30 @@ func c10R3DeleteGC(c *Ctx, R3 string, r *c08Roles) {
 		_, off := c08AutoSaveEdges(f, r.store)
 		ok, detail := true, ""
 		var pos token.Pos = f.Pos()
-		for _, M := range c08Mutations(f, r) {
-			ct := newCut().Edges(off...).Edges(c08InfeasibleAfter(M)...)
-			c08SaveSuccessCut(f, r, ct)
+		var blamed []string
+		muts, savedOn := mutationsOf(f)
+		for _, M := range muts {
+			M := M
+			mkCut := func() *cut {
+				ct := newCut().Edges(off...).Edges(c08InfeasibleAfter(M)...).Edges(savedOn[M]...)
+				c08SaveSuccessCut(f, r, ct)
+				return ct
+			}
 			for _, rm := range s.removes {
-				if reach(M.Block(), instrIndex(M)+1, rm, ct) {
+				rm := rm
+				bad := func(ct *cut) bool { return reach(M.Block(), instrIndex(M)+1, rm, ct) }
+				if bad(mkCut()) {
 					ok = false
 					pos = rm.Pos()
 					detail = fmt.Sprintf("after %s at %s a path reaches %s at %s without a successful save of index.json in between (AutoSaveIndex on)",
 						c08MutationLabel(M), c.P.Pos(M.Pos()), CalleeName(rm.(ssa.CallInstruction)), c.P.Pos(rm.Pos()))
+					blamed = append(blamed, c08BlamedGuards(f, r, M, mkCut, bad)...)
 				}
 			}
+		}
+		if !ok && len(blamed) > 0 {
+			c.Undecided(R3, s.key, pos, detail+"; the save runs only under a condition the rule cannot relate to the change: "+strings.Join(blamed, "; "))
+			continue
 		}
 		c.Check(R3, s.key, pos, ok, ifelse(ok, "every path from a change of the tag map to a blob removal passes a successful saveIndex (or the AutoSaveIndex==false edge)",
 			"blobs are removed while index.json still describes the old tag map: "+detail+" — a crash (or simply reopening the layout) finds index.json naming blobs that are gone"))
